@@ -137,11 +137,11 @@ prop("C11", quick={"runs": 30000}, thorough={"runs": 100000000, "budget_s": 600}
 prop("C12", quick={"runs": 6000}, thorough={"runs": 100000000, "budget_s": 600},
      rule=BE_RULE + "Root-driven fill of 1-400 entries around CountSoftLimit, access histories (reads at distinct simulated instants, rewrites), "
      "EvictionNeeded scripts, HeapInUseSoftLimit / SysMemSoftLimit at the two allocator-independent settings (1 byte: always exceeded, MaxUint64: never), "
-     "EvictFraction in (0,1], three strategies; the real janitor/eviction runs as a scheduled task. A fifth of the runs: reads racing each other before an LRU/LFU cycle; "
+     "EvictFraction in (0,1], three strategies; in 40 % of the LFU runs some entries arrive through Restore from a cache with the LRU strategy that had served them a few times; the real janitor/eviction runs as a scheduled task. A fifth of the runs: reads racing each other before an LRU/LFU cycle; "
      "another fifth: a concurrent phase of writes / deletes with janitor cycles in between, then quiet cycles judged against Walk snapshots. Non-trivial: at least one cycle.",
      rules=["C12.R1 no trigger -> nothing removed", "C12.R2 amount (fraction / down to CountSoftLimit*(1-f) within one entry)",
-            "C12.R3 max rank(removed) <= min rank(kept) under the strategy, ranks from the harness access log", "C12.R4 cache_evict equals entries removed"],
-     probes=["cycle_without_trigger", "cycle_count_breach", "cycle_eviction_needed", "cycle_memory_limit_breach", "quiet_cycle_count_breach", "order_checked", "long_expired_entry_purged_in_eviction_cycle", "overlapping_serves_of_one_key"])
+            "C12.R3 max rank(removed) <= min rank(kept) under the strategy, ranks from the harness access log (an entry restored from elsewhere: between its serves here and the sum of both histories; removed entries are judged by the lower end, kept ones by the upper end)", "C12.R4 cache_evict equals entries removed"],
+     probes=["cycle_without_trigger", "cycle_count_breach", "cycle_eviction_needed", "cycle_memory_limit_breach", "quiet_cycle_count_breach", "order_checked", "long_expired_entry_purged_in_eviction_cycle", "overlapping_serves_of_one_key", "entry_served_elsewhere_restored"])
 prop("C08", quick={"runs": 40000}, thorough={"runs": 100000000, "budget_s": 600},
      arch32={"thorough_runs": 100000, "workers": 2},
      rule=BE_RULE + "2-16 client tasks issue 1-5 operations each over <= 4 keys (partly constructed hash collisions); in half of the runs the real "
